@@ -1695,14 +1695,22 @@ class Item:
         if k > len(ls) or ls[k - 1][0] != "for":
             raise Undecided("LOST-ANCHOR: R3 for-%s loop %d of fn %s in %s" % (what, k, fn, self.where()))
         _, s, bopen, bclose = ls[k - 1]
-        mo = re.match(r"for\s+(.+?)\s+in\s+(.+?)\s*\.\s*%s\s*\(\s*\)\s*$" % what, self.text[s:bopen], re.S)
+        if what == "entries":
+            # `for (K, V) in RECV` over a `&HashMap<String, V>`: every entry once (key and `&m[key]`), in the map's unspecified order
+            mo = re.match(r"for\s+(\(\s*[A-Za-z_]\w*\s*,\s*[A-Za-z_]\w*\s*\))\s+in\s+&?\s*([A-Za-z_][\w.]*)\s*$", self.text[s:bopen], re.S)
+        else:
+            mo = re.match(r"for\s+(.+?)\s+in\s+(.+?)\s*\.\s*%s\s*\(\s*\)\s*$" % what, self.text[s:bopen], re.S)
         if not mo:
             raise Undecided("R3 for-%s: header not recognised" % what)
         pat, recv = mo.group(1).strip(), mo.group(2).strip()
         sfx = "" if k == 1 else str(k)
         iv, kv = "vx_i" + sfx, "vx_keys" + sfx
         inner = [x for x in ls if bopen < x[1] < bclose]
-        bind = "let %s = %s[%s];" % (pat, kv, iv) if what == "keys" else "let %s = vx_map_index(%s, %s[%s]);" % (pat, recv, kv, iv)
+        if what == "entries":
+            kn, vn = [x.strip() for x in pat.strip("()").split(",")]
+            bind = "let %s = %s[%s]; let %s = vx_map_index(%s, %s[%s]);" % (kn, kv, iv, vn, recv, kv, iv)
+        else:
+            bind = "let %s = %s[%s];" % (pat, kv, iv) if what == "keys" else "let %s = vx_map_index(%s, %s[%s]);" % (pat, recv, kv, iv)
         self.rewrite(s, bopen + 1, "let %s = vx_map_keys(%s);/*@pre*/\n    let mut %s: usize = 0;\n    while %s < %s.len()\n    /*@loop*/\n    {\n      %s/*@body*/"
                      % (kv, recv, iv, iv, kv, bind), "R3-for-%s" % what)
         for c in re.finditer(r"\bcontinue\b", self.m[bopen + 1:bclose]):
@@ -1717,6 +1725,9 @@ class Item:
 
     def r3_for_keys(self, fn, k):
         self._r3_map_iter(fn, k, "keys")
+
+    def r3_for_entries(self, fn, k):
+        self._r3_map_iter(fn, k, "entries")
 
     def r3_for_index_mut(self, fn, k):
         self.r3_for_index(fn, k, "mut")
